@@ -21,7 +21,7 @@ type c14Val struct {
 
 var c14Vals = []c14Val{
 	{"nil", false}, {bn.KwFalse, false}, {bn.KwTrue, true}, {"0", false}, {"(-0)", false}, {"1", true}, {"((2 ** 1024) - (2 ** 1024))", true},
-	{"\"\"", false}, {"\"x\"", true}, {"[]", true}, {"{}", true}, {"pf", true}, {bn.BLen, true}, {"(\"\" + \"\")", false}, {"2", true}, {"\"0\"", true}, {"[0]", true}, {"0.0", false},
+	{"\"\"", false}, {"\"x\"", true}, {"[]", true}, {"{}", true}, {"pf", true}, {bn.BLen, true}, {"(\"\" + \"\")", false}, {"2", true}, {"\"0\"", true}, {"[0]", true}, {"0.0", false}, {"0.5", true}, {"(-0.25)", true}, {"(2 ** 1024)", true}, {"0.000001", true},
 }
 
 var c14Few = []int{0, 3, 5, 8} // nil, 0, 1, "x"
